@@ -785,6 +785,11 @@ def check(repo):
                    "a directory that exists makes the later creation of that service fail" % (wfi.name, short(call)))
     if not mk:
         r4.ok({"file_manager": F.CLI_FM, "rule": "only create_sid_folder creates directories"})
+    sw, _n = F.creation_failures_swallowed(repo, F.CLI_FM)
+    for wfi, call, names in sw:
+        r4.fail_fn(wfi, call, "%s swallows a failed creation" % wfi.name,
+                   "%s swallows %s around %s: when the service directory cannot be created the creation goes on, the writers find no directory and "
+                   "write nothing, and a service is reported as created of which nothing is on disk" % (wfi.name, "/".join(names), short(call)))
 
     r2 = Rule("R11.2", "no dropped check: predicate results are used; validity check guards creation")
     rules.append(r2)
@@ -1166,6 +1171,7 @@ def _check_create_refuses_existing(repo, r9):
                 and any(isinstance(x, ast.Raise) for b in st.body for x in ast.walk(b)):
             explicit = True
     tolerant = [c for c in mk if any(k.arg == "exist_ok" and not (isinstance(k.value, ast.Constant) and k.value.value is False) for k in c.keywords)]
+    tolerant += [c for c in mk if c not in tolerant and F.tolerates_existing(c)]
     skipping = any(isinstance(st, ast.If) and any(isinstance(c, ast.Call) and isinstance(c.func, ast.Attribute) and c.func.attr == "exists" for c in ast.walk(st.test))
                    and not any(isinstance(x, ast.Raise) for b in st.body for x in ast.walk(b)) for st in ast.walk(csf.node))
     r9.require(bool(mk), csf, "client create_sid_folder mkdir", "client create_sid_folder no longer creates the directory")
